@@ -21,7 +21,7 @@ VERIF = os.path.dirname(os.path.dirname(os.path.abspath(__file__)))
 REPO = os.environ.get('VERIF_REPO', '/repo')
 COQ = os.path.join(VERIF, 'coq')
 BUILD = os.path.join(VERIF, 'build')
-EVID = os.path.join(VERIF, 'evidence')
+EVID = os.environ.get('VERIF_EVIDENCE_DIR') or os.path.join(VERIF, 'evidence')   # (the registered commands never set VERIF_EVIDENCE_DIR / VERIF_REPO: mutation rehearsal only)
 REPLAYS = os.path.join(EVID, 'replays')
 VENV_PY = '/venv/bin/python'
 NCPU = min(16, os.cpu_count() or 4)
